@@ -7,6 +7,7 @@ import (
 	"math/big"
 	"sort"
 	"strconv"
+	"strings"
 
 	abci "github.com/cometbft/cometbft/abci/types"
 
@@ -92,7 +93,11 @@ func NewChain(c *l1.Conc, cfg RunCfg) *Chain {
 	f, ctx := NewFixture()
 	ch := &Chain{F: f, Ctx: ctx, C: c, Cfg: cfg}
 	for _, d := range cfg.Denoms {
-		c.Denom(d)
+		cd := c.Denom(d)
+		if strings.HasPrefix(d, "n") { // native L2 tokens have bank metadata of their own (as a token-factory or genesis token would)
+			f.Bank.SetDenomMetaData(ctx, banktypes.Metadata{Base: cd, Display: cd, Symbol: cd, Name: cd + " native", Description: "native L2 token",
+				DenomUnits: []*banktypes.DenomUnit{{Denom: cd, Exponent: 0}}})
+		}
 	}
 	*f.PanicTo = c.Addr("panic")
 	for _, a := range cfg.Accts {
